@@ -63,7 +63,22 @@ def run(ctx):
     _lemma(ctx, "C17.rph.convention.pitch_nose_up", C.subs({r: 0, h: 0})[2, 0] + sp.sin(p))
     _lemma(ctx, "C17.rph.convention.roll_right_wing_down", C.subs({p: 0, h: 0})[2, 1] - sp.sin(r))
 
-    # ---- round trip ---------------------------------------------------------------------
+    ctx.guard(_roundtrip, ctx, py)
+
+    # ---- rotation vector -> matrix (numba kernel source, both branches) --------------
+    ctx.guard(_rotvec, ctx, py)
+
+    # ---- Euler-error Jacobian --------------------------------------------------------------
+    ctx.guard(_euler_jacobian, ctx, py)
+
+    # frame of the modules under contract (no state kept between calls, arguments left alone): same analysis as C19
+    from props import C19 as _C19
+    ctx.guard(_C19.frame_obligations, ctx, py, "C17", {'error_model', 'util', '_numba_integrate', 'transform'})
+
+
+def _roundtrip(ctx, py):
+    """mat_to_rph(mat_from_rph(a)) is congruent to a (single and stacked forms)"""
+    T = py.transform
     t0 = time.time()
     with rdomain(py):
         back = T.mat_to_rph(T.mat_from_rph([deg(RSym(r)), deg(RSym(p)), deg(RSym(h))]))
@@ -83,11 +98,6 @@ def run(ctx):
                 lambda v: T.mat_to_rph(T.mat_from_rph([deg(v["r"]), deg(v["p"]), deg(v["h"])])),
                 bk, full_domain(py, BOX), py=py)
 
-    # ---- rotation vector -> matrix (numba kernel source, both branches) --------------
-    ctx.guard(_rotvec, ctx, py)
-
-    # ---- Euler-error Jacobian --------------------------------------------------------------
-    ctx.guard(_euler_jacobian, ctx, py)
 
 
 # -----------------------------------------------------------------------------------------------
